@@ -25,13 +25,19 @@ RULE = ("the knut binary built from the working tree, run in a materialised file
         "include graph fails to load (missing/unreadable/unparseable file or a cycle: CliSafe.load_error).  Inside the modelled space the class predicted by the repaired model (Model/CliSafe.v and "
         "Model/CliSafeMore.v - check, print, balance, transcode, weights, returns - over Model/Loader.v) must equal the observed class; in the flag family the class "
         "is that of CliFlags.run_argv on the argument list (usage error, help, or the command's class), '-' where the model has no opinion (an "
-        "expression outside the modelled regexp sublanguage or whose meaning Model/Str.v cannot express, a universe file that exists, --digits "
+        "accepted expression whose meaning Model/Str.v cannot express, a universe file that exists, --digits "
         "beyond 1000).  Second generator (C14flag, 20000 values per quick run): flag values given in-process to DateFlag.Set, RegexFlag.Set, "
         "MappingFlag.Set, pflag's int/int32/bool Set and the commodity registry; accepted/rejected (syntax or range), the value, and for "
         "expressions the matches on 17 probe strings must equal Flags.parse_value / rx_sem; spec verdict: Flags.value_in_range on the value "
-        "the implementation accepted.  Non-trivial: the command got past flag parsing, i.e. the "
+        "the implementation accepted.  Third generator (C14rx, 10000 expressions per quick run, 10^6 thorough): regexp/syntax.Parse(s, syntax.Perl) - the "
+        "parser behind regexp.Compile - in-process against Model/RxSyntax.v rx_parse: the parse tree (operators, flags, runes, class ranges, "
+        "counts, capture numbers and names) or the error code, and the verdict of flags.RegexFlag.Set, must be equal as strings; spec verdict: "
+        "the flag accepts exactly the strings syntax.Parse parses (and regexp.Compile agrees).  Every Unicode class name of the toolchain "
+        "(\\p{X}, \\P{X}, folded, negated in brackets), then grammar-directed expressions (mostly valid or one edit from valid), alternations "
+        "aimed at the four rounds of factor, case folding, each error kind, the repeat product 1000, nesting depth 1000, compiled size and "
+        "rune count; corpus/C14/rx_limits.txt and rx_long.txt keep both sides of every limit and long expressions with the parser's caches in use.  Non-trivial: the command got past flag parsing, i.e. the "
         "observation is not a usage error (approximated: the case is not a flag-family case that ended in ERR); a flag value of the second "
-        "generator counts when the model has an opinion on it; distinct by input (the evidence lists binary runs and flag values separately).")
+        "generator and an expression of the third always count; distinct by input (the evidence lists binary runs and flag values separately).")
 
 TRUSTED_BASE = [
     "Coq 8.16.1 kernel, vm_compute (witnesses)",
@@ -46,7 +52,13 @@ TRUSTED_BASE = [
     "Model/Flags.v is a hand transcription of strconv (go1.23.5 atoi.go), time.Parse for the layout 2006-01-02, pflag v1.0.5 "
     "(flag.go parseArgs and below, int.go, int32.go, bool.go), cobra v1.7.0 (Command.execute up to Run, flag groups) and cmd/flags; "
     "the flag tables of the eight commands are copied from their setupFlags; tied to the code by the C14.flag value op and the "
-    "predicted flag family of this check.  regexp/syntax is classified on a sublanguage only (rx_class), never trusted outside it",
+    "predicted flag family of this check",
+    "Model/RxClass.v + Model/RxSyntax.v are a hand transcription of regexp/syntax parse.go and perl_groups.go (go1.23.5) with the flags "
+    "syntax.Perl: lexing, the parse stack, factor, the class arithmetic, the three limits with the struct identities and caches behind them; "
+    "Model/RxTables.v (unicode.Categories/Scripts/FoldCategory/FoldScript, unicode.SimpleFold) is generated from the toolchain by "
+    "lib/gen_rx_tables.go; both tied to the code by the C14.rx op of this check (trees compared, every class name on every run); "
+    "Regexp.Simplify and syntax.Compile are assumed not to fail (regexp.Compile is observed to agree with syntax.Parse on every case)",
+    "harness c14rx.go: the generator and the rendering of a syntax.Regexp; drv_c14rx.ml: the same rendering of the model's tree, FNV-1a of long ones",
     "harness c14flags.go: the in-process calls and the rendering of accepted values",
     "the Go runtime: nil dereference, slice bounds, allocation, goroutine leaks, the parser on arbitrary bytes are sampled, not proved",
 ]
@@ -73,17 +85,20 @@ LEVEL_TEXT = ("Coq (closed under the global context): C14_load_terminates (repai
               "parse'); C14_error_empty_stdout(_more)(_syntax) by the result types; flag handling (Model/Flags.v, "
               "CliFlags.v): C14_flag_error_is_clean (a rejected command line ends the command before Run in every file system: no panic, no "
               "success), C14_rejected_value_rejects / C14_rejected_value_ends_command (a rejected value anywhere on the command line), "
-              "C14_accepted_values_in_range, C14_flags_total (bool, int, int32, date, string flags) and C14_flags_total_rx_partial, "
-              "C14_int_flag_range, C14_mapping_flag_iff, C14_mapping_flag_unknown, C14_accepted_mapping_guard.  Partial: what only the Go runtime can "
+              "C14_accepted_values_in_range, C14_flags_total (every flag kind, every string: accepted in range or rejected), C14_regex_flag_iff, "
+              "C14_int_flag_range, C14_mapping_flag_iff, C14_accepted_mapping_guard; regular expressions on all strings (Model/RxSyntax.v): "
+              "C14_rx_lex_progress, C14_rx_factor_fuel, C14_rx_valid_fuel_enough, C14_rx_parse_total, C14_rx_valid_spec.  Partial: what only the Go runtime can "
               "exhibit is sampled on the binary (quick ~600 runs, thorough 60000).")
 LEVEL_NOTE = ("The unconditional statement is false of the pinned code (findings F5 F8 F9 F12 F17 F19) and is proved of the "
               "repaired model for all seven commands (check, balance, print, transcode, portfolio weights/returns at the "
               "directive level over the include loader; format and infer at the byte level); flag handling is modelled as far as "
               "it is knut's own code and the value syntax of pflag/strconv/time that decides error versus success (every value parser "
               "total and proved in range; the argument list and cobra's validation; the exit class of the flag family predicted and "
-              "compared on every run), except regexp.Compile, which is classified on a sublanguage only (no opinion outside it; the "
-              "statements about the two kinds that compile an expression carry that third alternative), and the YAML reader of "
-              "--universe; the loading commands start from parsed directives (the parser's totality is C14_parse_total / C07); the exit class of transcode, weights and returns "
+              "compared on every run) - including regexp.Compile, whose success is decided on every string by a transcription of "
+              "regexp/syntax.Parse that is proved total (no fuel exhaustion) and compared with the toolchain's parser tree by tree - except the "
+              "YAML reader of --universe; what an accepted expression MATCHES is modelled only for the expressions rx_sem can express "
+              "(alternatives of ^?literal$?, .*, $^): where the content of a report depends on another expression the flag-family case "
+              "stays classification only; the loading commands start from parsed directives (the parser's totality is C14_parse_total / C07); the exit class of transcode, weights and returns "
               "is compared with the model's inside the modelled flag space like that of check, print, balance; `portfolio "
               "returns` prints while it processes, so its model describes stdout of successful runs only (the property does "
               "not list it among the commands whose failure leaves stdout empty); fuel-bounded recursion of the price "
@@ -92,8 +107,8 @@ LEVEL_NOTE = ("The unconditional statement is false of the pinned code (findings
 
 def plan(tier, seed):
     if tier == "quick":
-        return [("C14", seed, 600, []), ("C14flag", seed, 20000, [])]
-    return [("C14", seed + k, 6000, []) for k in range(10)] + [("C14flag", seed, 1000000, [])]
+        return [("C14", seed, 600, []), ("C14flag", seed, 20000, []), ("C14rx", seed, 10000, [])]
+    return [("C14", seed + k, 6000, []) for k in range(10)] + [("C14flag", seed, 1000000, []), ("C14rx", seed, 1000000, ["big"])]
 
 
 def search_plan(seed):
@@ -107,6 +122,9 @@ def _class(obs):
 
 def compare(c):
     """inside the modelled space the predicted class must be the observed one; elsewhere only the spec verdict counts"""
+    if c.op == "C14.rx":
+        # the tree (or the error code) of regexp/syntax and the verdict of RegexFlag.Set: equal strings
+        return c.model == c.observed
     if c.op == "C14.flag":
         # a flag value: accepted/rejected and the value must agree; "?" = outside the modelled regexp sublanguage,
         # "ok m=?" = the expression compiles but Model/Str.v cannot express what it matches
@@ -121,6 +139,8 @@ def compare(c):
 
 
 def nontrivial(c):
+    if c.op == "C14.rx":
+        return True
     if c.op == "C14.flag":
         return c.model != "?"
     cl = _class(c.observed)
@@ -135,8 +155,18 @@ def distribution(cases):
     d = {"by_cmd": {}, "by_class": {}, "predicted": 0, "predicted_err": 0, "predicted_by_cmd": {},
          "trees": {"single": 0, "multi": 0, "cyclic_or_bad": 0}, "raw_flag_cases": 0, "signatures": {},
          "flag_family": {"cases": 0, "predicted": {}, "no_opinion": 0},
-         "flag_values": {}}
+         "flag_values": {}, "regexps": {"cases": 0, "parsed": 0, "errors": {}}}
     for c in cases:
+        if c.op == "C14.rx":
+            rx = d["regexps"]
+            rx["cases"] += 1
+            f = (c.observed or "").split(" ")
+            if f[0] == "ok":
+                rx["parsed"] += 1
+            else:
+                k = f[1] if len(f) > 1 else "?"
+                rx["errors"][k] = rx["errors"].get(k, 0) + 1
+            continue
         if c.op == "C14.flag":
             kind = c.input.split(" ")[0]
             fv = d["flag_values"].setdefault(kind, {"accepted": 0, "rejected": 0, "no_opinion": 0})
